@@ -285,3 +285,257 @@ impl Options {
 		self
 	}
 }
+
+// ---------------------------------------------------------------------------
+// H5: component access (commit log segments, sorted tables). Thin wrappers over
+// crate-private types so that a monitor can drive them directly.
+// ---------------------------------------------------------------------------
+
+/// A commit-log directory opened with the internal `Wal` type.
+pub struct VerifWal {
+	inner: crate::wal::Wal,
+}
+
+impl VerifWal {
+	pub fn open(dir: &std::path::Path, max_file_size: u64, lz4: bool) -> Result<Self> {
+		let mut opts = crate::wal::Options::default().with_max_file_size(max_file_size);
+		if lz4 {
+			opts = opts.with_compression(crate::wal::CompressionType::Lz4);
+		}
+		Ok(Self {
+			inner: crate::wal::Wal::open(dir, opts)?,
+		})
+	}
+
+	pub fn append(&mut self, rec: &[u8]) -> Result<u64> {
+		Ok(self.inner.append(rec)?)
+	}
+
+	pub fn sync(&mut self) -> Result<()> {
+		Ok(self.inner.sync()?)
+	}
+
+	pub fn rotate(&mut self) -> Result<u64> {
+		Ok(self.inner.rotate()?)
+	}
+
+	pub fn close(&mut self) -> Result<()> {
+		Ok(self.inner.close()?)
+	}
+
+	pub fn active_log_number(&self) -> u64 {
+		self.inner.get_active_log_number()
+	}
+}
+
+/// How reading a segment ended.
+#[derive(Debug, Clone, PartialEq)]
+pub enum VerifWalEnd {
+	Eof,
+	Corruption {
+		offset: u64,
+		message: String,
+	},
+	Other(String),
+}
+
+/// Reads every record of one segment file with the internal `Reader`:
+/// `(payload, file offset just after the record)` pairs and how reading ended.
+pub fn verif_wal_read_segment(path: &std::path::Path) -> Result<(Vec<(Vec<u8>, u64)>, VerifWalEnd)> {
+	let file = std::fs::File::open(path)?;
+	let mut reader = crate::wal::reader::Reader::new(file);
+	let mut out = Vec::new();
+	loop {
+		match reader.read() {
+			Ok((rec, off)) => out.push((rec.to_vec(), off)),
+			Err(crate::wal::Error::IO(e)) if e.kind() == std::io::ErrorKind::UnexpectedEof => {
+				return Ok((out, VerifWalEnd::Eof));
+			}
+			Err(crate::wal::Error::Corruption(c)) => {
+				return Ok((
+					out,
+					VerifWalEnd::Corruption {
+						offset: c.offset,
+						message: c.to_string(),
+					},
+				));
+			}
+			Err(e) => return Ok((out, VerifWalEnd::Other(e.to_string()))),
+		}
+	}
+}
+
+/// `repair_corrupted_wal_segment` of the recovery module.
+pub fn verif_wal_repair(wal_dir: &std::path::Path, segment_id: usize) -> Result<()> {
+	crate::wal::recovery::repair_corrupted_wal_segment(wal_dir, segment_id)
+}
+
+/// One versioned entry of a sorted table.
+#[derive(Debug, Clone, PartialEq)]
+pub struct VerifEntry {
+	pub user_key: Vec<u8>,
+	pub seq: u64,
+	pub kind: u8,
+	pub ts: u64,
+	pub value: Vec<u8>,
+}
+
+impl VerifEntry {
+	fn ikey(&self) -> crate::InternalKey {
+		crate::InternalKey::new(self.user_key.clone(), self.seq, self.kind.into(), self.ts)
+	}
+}
+
+/// Writes `entries` (already in internal-key order) into a table file with `TableWriter`.
+pub fn verif_table_write(
+	path: &std::path::Path,
+	id: u64,
+	opts: &Options,
+	level: u8,
+	entries: &[VerifEntry],
+) -> Result<usize> {
+	let file = std::fs::File::create(path)?;
+	let mut w = crate::sstable::table::TableWriter::new(file, id, Arc::new(opts.clone()), level);
+	for e in entries {
+		w.add(e.ikey(), &e.value)?;
+	}
+	w.finish()
+}
+
+/// Cursor operations for [`VerifTable2::run_cursor`].
+#[derive(Debug, Clone)]
+pub enum VerifCursorOp {
+	SeekFirst,
+	SeekLast,
+	Next,
+	Prev,
+	/// seek to the first entry at or after (user_key, seq) in internal order
+	Seek(Vec<u8>, u64),
+}
+
+/// A table file opened with the internal `Table` type.
+pub struct VerifTableHandle {
+	inner: Arc<crate::sstable::table::Table>,
+}
+
+type UserBound = std::ops::Bound<Vec<u8>>;
+
+fn user_bounds(lower: &UserBound, upper: &UserBound) -> crate::InternalKeyRange {
+	use std::ops::Bound;
+	fn r(b: &UserBound) -> Bound<&[u8]> {
+		match b {
+			Bound::Unbounded => Bound::Unbounded,
+			Bound::Included(k) => Bound::Included(k.as_slice()),
+			Bound::Excluded(k) => Bound::Excluded(k.as_slice()),
+		}
+	}
+	crate::user_range_to_internal_range(r(lower), r(upper))
+}
+
+impl VerifTableHandle {
+	pub fn open(path: &std::path::Path, id: u64, opts: &Options) -> Result<Self> {
+		let file = std::fs::File::open(path)?;
+		let size = file.metadata()?.len();
+		let file: Arc<dyn crate::vfs::File> = Arc::new(file);
+		Ok(Self {
+			inner: Arc::new(crate::sstable::table::Table::new(id, Arc::new(opts.clone()), file, size)?),
+		})
+	}
+
+	/// `Table::get` for (user_key, snapshot seq): newest entry of the key at or below the snapshot.
+	pub fn get(&self, user_key: &[u8], snapshot: u64) -> Result<Option<VerifEntry>> {
+		let ikey = crate::InternalKey::new(
+			user_key.to_vec(),
+			snapshot,
+			crate::InternalKeyKind::Set,
+			0,
+		);
+		Ok(self.inner.get(&ikey)?.map(|(k, v)| VerifEntry {
+			user_key: k.user_key.clone(),
+			seq: k.seq_num(),
+			kind: k.kind() as u8,
+			ts: k.timestamp,
+			value: v.to_vec(),
+		}))
+	}
+
+	/// Whether the key-range shortcut used by `Snapshot::get` admits the key.
+	pub fn is_key_in_key_range(&self, user_key: &[u8], snapshot: u64) -> bool {
+		let ikey = crate::InternalKey::new(
+			user_key.to_vec(),
+			snapshot,
+			crate::InternalKeyKind::Set,
+			0,
+		);
+		self.inner.is_key_in_key_range(&ikey)
+	}
+
+	/// `(is_before_range, is_after_range, overlaps_with_range)` for user-key bounds.
+	pub fn range_relation(&self, lower: &UserBound, upper: &UserBound) -> (bool, bool, bool) {
+		let r = user_bounds(lower, upper);
+		(
+			self.inner.is_before_range(&r),
+			self.inner.is_after_range(&r),
+			self.inner.overlaps_with_range(&r),
+		)
+	}
+
+	/// Runs a cursor program over the table restricted to the user-key bounds and returns,
+	/// after every operation, the entry the cursor stands on (None = not valid).
+	pub fn run_cursor(
+		&self,
+		lower: &UserBound,
+		upper: &UserBound,
+		ops: &[VerifCursorOp],
+	) -> Result<Vec<Option<VerifEntry>>> {
+		use crate::LSMIterator;
+		let unbounded = matches!(lower, std::ops::Bound::Unbounded)
+			&& matches!(upper, std::ops::Bound::Unbounded);
+		let mut it =
+			self.inner.iter(if unbounded { None } else { Some(user_bounds(lower, upper)) })?;
+		let mut out = Vec::with_capacity(ops.len());
+		for op in ops {
+			match op {
+				VerifCursorOp::SeekFirst => it.seek_first()?,
+				VerifCursorOp::SeekLast => it.seek_last()?,
+				VerifCursorOp::Next => it.next()?,
+				VerifCursorOp::Prev => it.prev()?,
+				VerifCursorOp::Seek(k, seq) => it.seek(
+					&crate::InternalKey::new(
+						k.clone(),
+						*seq,
+						crate::InternalKeyKind::Max,
+						crate::INTERNAL_KEY_TIMESTAMP_MAX,
+					)
+					.encode(),
+				)?,
+			};
+			out.push(if it.valid() {
+				let k = it.key();
+				Some(VerifEntry {
+					user_key: k.user_key().to_vec(),
+					seq: k.seq_num(),
+					kind: k.kind() as u8,
+					ts: k.timestamp(),
+					value: it.value_encoded()?.to_vec(),
+				})
+			} else {
+				None
+			});
+		}
+		Ok(out)
+	}
+
+	/// `(smallest user key, largest user key, smallest seq, largest seq, entries)` from the table's metadata.
+	#[allow(clippy::type_complexity)]
+	pub fn meta(&self) -> (Option<Vec<u8>>, Option<Vec<u8>>, Option<u64>, Option<u64>, u64) {
+		let m = &self.inner.meta;
+		(
+			m.smallest_point.as_ref().map(|k| k.user_key.clone()),
+			m.largest_point.as_ref().map(|k| k.user_key.clone()),
+			m.smallest_seq_num,
+			m.largest_seq_num,
+			m.properties.num_entries,
+		)
+	}
+}
